@@ -553,6 +553,100 @@ def probe_run_resets():
         return False
 
 
+# ------------------------------------------------------------------ wave 9: session lifecycles on ONE object / ONE REST instance
+def lifecycle(case, facts):
+    """[begin_session, steps, reads of every view after every step (the by-equation view twice in a row)] x 2-3 on one bptk object and on one REST
+    instance, with or without end_session in between, other requested equations / settings / lengths per session.  Every read must be what the
+    CURRENT session alone reports (closed-form reference; Python = REST).  Returns protocol lines, expected replies, problems."""
+    from BPTK_Py.server import BptkServer
+    created, problems = [], []
+    labels = batch_channels(dict(case, eqs=[2], calls=[]))[0]
+    n, tok = len(labels) - 1, Tok(labels)
+    def expected(sess, j):
+        rows, _ = reference_rows(dict(case, eqs=sess["eqs"], calls=[("step", v) for v in sess["vals"][:j]]), n)
+        bt = "|".join(rows) or "-"
+        be = ";".join("%d=" % e + ",".join("%s:%s" % (r.split(":")[0], r.split(":")[1].split(",")[i]) for r in rows) for i, e in enumerate(sess["eqs"]))
+        fl = ";".join("%d=" % e + ",".join(r.split(":")[1].split(",")[i] for r in rows) for i, e in enumerate(sess["eqs"]))
+        return bt, be, fl
+    req = ["model %s %s %s %s 0" % tuple(fbits(case[k]) for k in ("a", "b", "s0", "dt")), "spec %d 1 %s" % (n, ",".join("i%d" % i for i in range(n + 2)))]
+    exp = ["ok", "ok"]
+    def note(where, si, j, view, got, want):
+        if got != want and not problems:
+            problems.append(("session-views-lifecycle", "%s, session %d (%s the session before was ended), after %d step(s): %s reports %s, the current session alone gives %s"
+                             % (where, si, "" if si == 0 else ("and" if case["sessions"][si - 1]["end"] else "and NOT"), j, view, got, want), {"session": si, "steps": j, "view": view}))
+    try:
+        bp = make_factory(case, created)()
+        cl = BptkServer(__name__, make_factory(case, created)).test_client()
+        iid = json.loads(cl.post("/start-instance", json={}).data)["instance_uuid"]
+        for si, sess in enumerate(case["sessions"]):
+            eqs, names = sess["eqs"], [EQN[e] for e in sess["eqs"]]
+            bp.begin_session(scenarios=[SC], scenario_managers=[SM], equations=names)
+            cl.post("/%s/begin-session" % iid, json={"scenario_managers": [SM], "scenarios": [SC], "equations": names})
+            req.append("begin %s %d %s" % (fbits(case["c0"]), lazy_flag(eqs), ",".join(map(str, eqs)))); exp.append("ok")
+            for j in range(len(sess["vals"]) + 1):
+                if j > 0:
+                    st = settings_of(sess["vals"][j - 1], case)
+                    r = bp.run_step(settings=st) if st is not None else bp.run_step()
+                    rr = cl.post("/%s/run-step" % iid, json={"settings": st}) if st is not None else cl.post("/%s/run-step" % iid)
+                    rep = canon_step(r, eqs, tok)
+                    note("REST run-step vs Python run_step", si, j, "the step reply", canon_step(_keys(json.loads(rr.data)), eqs, tok), rep)
+                    req.append(call_line(("step", sess["vals"][j - 1]))); exp.append(rep)
+                bt, be, fl = expected(sess, j)
+                got_bt = canon_bytime(bp.session_results(index_by_time=True), eqs, tok)
+                got_be = [canon_byeq(bp.session_results(index_by_time=False, flat=False), eqs, tok) for _ in range(2)]      # twice in a row: idempotent
+                got_fl = canon_flat(bp.session_results(index_by_time=False, flat=True), eqs)
+                rest_be = [canon_byeq(_keys(json.loads(cl.get("/%s/session-results" % iid).data)), eqs, tok) for _ in range(2)]
+                rest_fl = canon_flat(json.loads(cl.get("/%s/flat-session-results" % iid).data), eqs)
+                note("Python session_results(index_by_time=True)", si, j, "the by-time view", got_bt, bt)
+                for k_ in range(2):
+                    note("Python session_results(index_by_time=False), read %d" % (k_ + 1), si, j, "the by-equation view", got_be[k_], be)
+                    note("GET session-results, read %d" % (k_ + 1), si, j, "the by-equation view", rest_be[k_], be)
+                note("Python session_results(flat=True)", si, j, "the flat view", got_fl, fl)
+                note("GET flat-session-results", si, j, "the flat view", rest_fl, fl)
+                req += ["results", "byeq", "byeq", "flat"]; exp += [got_bt, got_be[0], got_be[1], got_fl]
+            if sess["end"]:
+                bp.end_session(); cl.post("/%s/end-session" % iid)
+                req.append("endsession"); exp.append("ok")
+    finally:
+        for b in created:
+            b.destroy()
+    return req, exp, problems
+
+
+def gen_lifecycle(rng):
+    dt = rng.choice([1.0, 0.5, 0.25])
+    start = rng.choice([0.0, 1.0])
+    case = {"a": rng.choice([1.0, 2.0, 0.5]), "b": rng.choice([1.0, 3.0]), "s0": rng.choice([0.0, 1.0, 2.5]), "c0": rng.choice([1.0, 2.0, 0.75]),
+            "start": start, "dt": dt, "stop": start + 5 * dt, "sessions": []}
+    for _ in range(rng.range(2, 3)):
+        k = rng.range(1, 4)
+        case["sessions"].append({"eqs": rng.choice(EQSETS), "vals": [None if rng.chance(1, 2) else rng.choice([10.0, 0.5, 3.0, 0.0, 7]) for _ in range(k)],
+                                 "end": rng.chance(1, 2)})
+    return case
+
+
+FIXED_LIFECYCLES = [
+    # the seeded scenario: read the by-equation view during a session, begin again without end_session, read again
+    {"a": 1.0, "b": 1.0, "s0": 0.0, "c0": 1.0, "start": 0.0, "dt": 1.0, "stop": 5.0,
+     "sessions": [{"eqs": [2], "vals": [None, None], "end": False}, {"eqs": [2], "vals": [5.0], "end": False}, {"eqs": [3, 1], "vals": [None, 0.5, None], "end": True}]},
+    {"a": 2.0, "b": 3.0, "s0": 1.0, "c0": 0.75, "start": 1.0, "dt": 0.5, "stop": 3.5,
+     "sessions": [{"eqs": [0, 1, 2, 3], "vals": [10.0, None, None], "end": True}, {"eqs": [2, 3], "vals": [None], "end": False}, {"eqs": [2, 3], "vals": [None, 3.0], "end": False}]},
+]
+
+
+def lifecycle_show(case):
+    return {k: case[k] for k in ("a", "b", "s0", "c0", "start", "dt", "stop")} | {"sessions": [
+        {"equations": [EQN[e] for e in s_["eqs"]], "steps": ["run-step" + ("" if v is None else " value=%r" % (v,)) for v in s_["vals"]],
+         "then": "end_session" if s_["end"] else "no end_session"} for s_ in case["sessions"]]}
+
+
+def probe_views_current():
+    try:
+        return not lifecycle(FIXED_LIFECYCLES[0], None)[2]
+    except Exception:
+        return False
+
+
 # ------------------------------------------------------------------ probes
 def probe_case(dt, n, eqs, calls, start=0.0):
     return {"a": 1.0, "b": 1.0, "s0": 0.0, "c0": 1.0, "start": start, "dt": dt, "stop": start + n * dt if dt != 0.1 else round(start + n * dt, 10),
@@ -651,20 +745,21 @@ def probe_per_key():
 def probe_all():
     state = probe_finalises()
     return {"dt": probe_session_dt(), "clock": probe_clock(), "final": state and probe_finalises_lookback(), "state": state,
-            "run": probe_run_resets(), "keep": probe_keeps_memo(), "perkey": probe_per_key()}
+            "run": probe_run_resets(), "keep": probe_keeps_memo(), "perkey": probe_per_key(), "views": probe_views_current()}
 
 
 def gen_lean(f):
     b = lambda x: "true" if x else "false"
     cfg = (f"def cfg : Cfg := {{ sessionDtFromScenario := {b(f['dt'])}, stepClockNormalised := {b(f['clock'])}, "
-           f"stepFinalisesAll := {b(f['final'])}, stepFinalisesState := {b(f['state'])}, runResetsOnAnySettings := {b(f['run'])}, changeEquationKeepsMemo := {b(f['keep'])}, settingsAppliedPerKey := {b(f['perkey'])} }}\n")
-    if f["dt"] and f["clock"] and f["final"] and f["run"] and f["keep"] and f["perkey"]:
+           f"stepFinalisesAll := {b(f['final'])}, stepFinalisesState := {b(f['state'])}, runResetsOnAnySettings := {b(f['run'])}, changeEquationKeepsMemo := {b(f['keep'])}, settingsAppliedPerKey := {b(f['perkey'])}, viewsDeriveFromCurrentLog := {b(f['views'])} }}\n")
+    if f["dt"] and f["clock"] and f["final"] and f["run"] and f["keep"] and f["perkey"] and f["views"]:
         body = "theorem holds : C09_full cfg := C09_full_of_good cfg (by decide)\n#print axioms holds\n"
     else:
         thm = ("C09_witness_session_dt cfg (by decide)" if not f["dt"] else "C09_witness_clock cfg (by decide)" if not f["clock"] else
                "C09_witness_run_runspecs_only cfg (by decide)" if (f["final"] and not f["run"]) else
                "C09_witness_memo_dropped cfg (by decide) (by decide)" if (f["final"] and not f["keep"]) else
-               "C09_witness_last_value cfg (by decide) (by decide)" if f["final"] else
+               "C09_witness_last_value cfg (by decide) (by decide)" if (f["final"] and not f["perkey"]) else
+               "C09_witness_view_cache cfg (by decide)" if f["final"] else
                "C09_witness_state_only cfg (by decide) (by decide)" if f["state"] else "C09_witness_settings_leak cfg (by decide)")
         body = (f"theorem violated : ¬ C09_full cfg := {thm}\n#print axioms violated\n"
                 "#print axioms partition_invariance\n#print axioms formats_agree\n#print axioms C09_partial_all_requested\n")
@@ -962,7 +1057,7 @@ def run(chk):
                        "the look-back `delay(g, 2*dt)` is rendered in C08's expression language as two one-step delays (auxiliary g1 = delay(g, dt)); values coincide"]
     rng = chk.rng.fork("c09")
     cases = fixed_cases() + [gen_case(rng) for _ in range(220 if chk.quick else 3000)]
-    req, exp, owner = ["cfg %d %d %d %d %d %d %d" % (facts["dt"], facts["clock"], facts["final"], facts["state"], facts["run"], facts["keep"], facts["perkey"])], ["ok"], [None]
+    req, exp, owner = ["cfg %d %d %d %d %d %d %d %d" % (facts["dt"], facts["clock"], facts["final"], facts["state"], facts["run"], facts["keep"], facts["perkey"], facts["views"])], ["ok"], [None]
     found, skipped, dist = {}, 0, {"dt": {}, "calls": {}, "eqsets": {}}
     for idx, case in enumerate(cases):
         try:
@@ -991,6 +1086,7 @@ def run(chk):
             found.setdefault(key, (case, text, detail))
     # ---- wave 3: sequences of /run requests on one server (feedback family)
     seqs = [dict(c) for c in FIXED_SEQUENCES] + [gen_run_sequence(rng.fork("runseq%d" % i)) for i in range(40 if chk.quick else 400)]
+    life_found = {}
     seq_found, kinds = {}, {"no settings": 0, "runspecs only": 0, "constants only": 0, "both": 0}
     for sc_ in seqs:
         try:
@@ -1005,6 +1101,21 @@ def run(chk):
         for key, text, detail in problems:
             seq_found.setdefault(key, (sc_, text, detail))
     dist["run_sequences"] = {"sequences": len(seqs), "requests": kinds}
+    # ---- wave 9: session lifecycles on one object / one REST instance
+    lifes = [dict(c) for c in FIXED_LIFECYCLES] + [gen_lifecycle(rng.fork("life%d" % i)) for i in range(20 if chk.quick else 200)]
+    lc = {"lifecycles": len(lifes), "sessions": 0, "begin without end_session before": 0, "reads": 0}
+    for lcase in lifes:
+        try:
+            r, e, problems = lifecycle(lcase, facts)
+        except Exception as ex:  # noqa
+            r, e, problems = [], [], [("channel-error", "lifecycle %s: %s" % (type(ex).__name__, ex), {})]
+        lc["sessions"] += len(lcase["sessions"]); lc["reads"] += 7 * sum(len(s_["vals"]) + 1 for s_ in lcase["sessions"])
+        lc["begin without end_session before"] += sum(1 for i, s_ in enumerate(lcase["sessions"][:-1]) if not s_["end"])
+        req += r; exp += e; owner += [None] * len(r)
+        chk.case(json.dumps(lifecycle_show(lcase), sort_keys=True), nontrivial=True)
+        for key, text, detail in problems:
+            life_found.setdefault(key, (lcase, text, detail))
+    dist["session_lifecycles"] = lc
     chk.cov["input_distribution"] = dist
     chk.cov["skipped_run_specs_hit_by_C05_until_plus_dt"] = skipped
     chk.notes["sim_bound_exact (C05)"] = SIM_BOUND_OK
@@ -1055,6 +1166,28 @@ def run(chk):
                     small, text, detail, changed = cand, pr[0][1], pr[0][2], True
                     break
         chk.add_finding(key, f"one server, sequence of POST /run requests {seq_show(small)}: {text}", {"sequence": small, "key": key, "detail": detail})
+    for key, (lcase, text, detail) in life_found.items():
+        small = dict(lcase)
+        def lfails(c_):
+            try:
+                return [p for p in lifecycle(c_, facts)[2] if p[0] == key]
+            except Exception:  # noqa
+                return []
+        changed = key != "channel-error"
+        while changed:                                   # shrink: drop sessions, then steps, while the same class still shows
+            changed = False
+            cands = [dict(small, sessions=small["sessions"][:i] + small["sessions"][i + 1:]) for i in range(len(small["sessions"])) if len(small["sessions"]) > 1]
+            cands += [dict(small, sessions=small["sessions"][:i] + [dict(s_, vals=s_["vals"][:-1])] + small["sessions"][i + 1:])
+                      for i, s_ in enumerate(small["sessions"]) if len(s_["vals"]) > 1]
+            for cand in cands:
+                pr = lfails(cand)
+                if pr:
+                    small, text, detail, changed = cand, pr[0][1], pr[0][2], True
+                    break
+        chk.add_finding(key, f"one bptk object / one REST instance, sessions {lifecycle_show(small)}: {text}", {"lifecycle": small, "key": key, "detail": detail})
+    if not facts["views"] and "session-views-lifecycle" not in life_found:
+        chk.add_finding("session-views-lifecycle", "probe: by-equation view read during a session, begin_session again without end_session, read again: not the current session's rows",
+                        {"lifecycle": FIXED_LIFECYCLES[0], "key": "session-views-lifecycle"})
     if not facts["run"] and "run-after-run-stale" not in seq_found:
         chk.add_finding("run-after-run-stale", "probe: a /run whose settings carry only run specs is answered from the memo of the earlier /run",
                         {"sequence": FIXED_SEQUENCES[0], "key": "run-after-run-stale"})
@@ -1073,7 +1206,7 @@ def run(chk):
     if not ok:
         chk.add_finding("obligation", f"proof obligations of C09 no longer check: {why}",
                         {"theorem": "Bptk.C09.Gen.holds / Bptk.Props.C09", "detail": why}, found_input=False)
-    if diff is not None and not found and not seq_found:
+    if diff is not None and not found and not seq_found and not life_found:
         ci = owner[diff] if diff < len(owner) else None
         chk.add_finding("correspondence", f"model and implementation disagree at protocol line {diff}: request {req[diff] if diff < len(req) else None!r}",
                         {"correspondence": "Drive/C09 vs run_scenarios / session API / REST", "line": diff,
@@ -1085,6 +1218,12 @@ def run(chk):
 def replay(path):
     quiet_bptk_logging()
     r = json.load(open(path))["replay"]
+    if "lifecycle" in r:
+        print("session lifecycle on one object:", lifecycle_show(r["lifecycle"]))
+        problems = lifecycle(r["lifecycle"], None)[2]
+        for p in problems:
+            print("problem on the current tree:", p[0], "-", p[1])
+        return 1 if problems else 0
     if "sequence" in r:
         print("sequence of /run requests on one server:", seq_show(r["sequence"]))
         problems = run_sequence(r["sequence"], None)[2]
